@@ -22,6 +22,18 @@ type errorExit struct {
 	pos    token.Pos
 	guards []Atom
 	inits  []string // init statements of the enclosing ifs (`if _, ok := m[k]; ok`)
+	own    int      // how many of guards come from the innermost enclosing if / case
+}
+
+// ownGuards counts the facts contributed by the innermost if / case around n.
+func ownGuards(pm map[ast.Node]ast.Node, n ast.Node, stop ast.Node) int {
+	for cur := pm[n]; cur != nil && cur != stop; cur = pm[cur] {
+		switch cur.(type) {
+		case *ast.IfStmt, *ast.CaseClause:
+			return len(lexicalGuards(pm, n, pm[cur]))
+		}
+	}
+	return 0
 }
 
 // enclosingInits renders the init statements of the if statements whose body contains n.
@@ -40,6 +52,16 @@ func enclosingInits(pm map[ast.Node]ast.Node, n ast.Node, stop ast.Node) []strin
 		}
 	}
 	return out
+}
+
+// sameStmt reports whether node n lies inside the statement that starts at pos.
+func sameStmt(pm map[ast.Node]ast.Node, pos token.Pos, n ast.Node) bool {
+	for cur := ast.Node(n); cur != nil; cur = pm[cur] {
+		if st, ok := cur.(ast.Stmt); ok && st.Pos() == pos {
+			return true
+		}
+	}
+	return false
 }
 
 // errorExits lists the error exits of fi: returns of a ParseError/Rule/Group
@@ -66,13 +88,13 @@ func errorExits(p *Prog, fi *FuncInfo) []errorExit {
 		case *ast.ReturnStmt:
 			for _, r := range x.Results {
 				if isErrLit(r) {
-					out = append(out, errorExit{x.Pos(), lexicalGuards(pm, x, fi.Decl.Body), enclosingInits(pm, x, fi.Decl.Body)})
+					out = append(out, errorExit{x.Pos(), lexicalGuards(pm, x, fi.Decl.Body), enclosingInits(pm, x, fi.Decl.Body), ownGuards(pm, x, fi.Decl.Body)})
 					return true
 				}
 				if call, ok := ast.Unparen(r).(*ast.CallExpr); ok {
 					switch calleeName(info, call) {
 					case "internal/parser.duplicatedKeyError", "internal/parser.invalidValueError":
-						out = append(out, errorExit{x.Pos(), lexicalGuards(pm, x, fi.Decl.Body), enclosingInits(pm, x, fi.Decl.Body)})
+						out = append(out, errorExit{x.Pos(), lexicalGuards(pm, x, fi.Decl.Body), enclosingInits(pm, x, fi.Decl.Body), ownGuards(pm, x, fi.Decl.Body)})
 						return true
 					}
 				}
@@ -80,15 +102,37 @@ func errorExits(p *Prog, fi *FuncInfo) []errorExit {
 			// `return r, false` with r bound by `if r, ok := helper(…); !ok`
 			if len(x.Results) == 2 && exprStr(x.Results[1]) == "false" {
 				if _, isID := x.Results[0].(*ast.Ident); isID {
-					out = append(out, errorExit{x.Pos(), lexicalGuards(pm, x, fi.Decl.Body), enclosingInits(pm, x, fi.Decl.Body)})
+					out = append(out, errorExit{x.Pos(), lexicalGuards(pm, x, fi.Decl.Body), enclosingInits(pm, x, fi.Decl.Body), ownGuards(pm, x, fi.Decl.Body)})
 				}
 			}
 			// `return false, ParseError{…}, lines`
+		case *ast.CompositeLit:
+			// a ParseError value with its error set, wherever it is built (returned through a
+			// helper's result, stored in a local first): the place where a rejection is decided
+			if typeQName(info.TypeOf(x)) == "internal/parser.ParseError" && litField(x, "Err") != nil {
+				dup := false
+				for _, e := range out {
+					if e.pos <= x.Pos() && x.Pos() < e.pos+token.Pos(400) && sameStmt(pm, e.pos, x) {
+						dup = true
+					}
+				}
+				if !dup {
+					out = append(out, errorExit{x.Pos(), lexicalGuards(pm, x, fi.Decl.Body), enclosingInits(pm, x, fi.Decl.Body), ownGuards(pm, x, fi.Decl.Body)})
+				}
+			}
 		case *ast.AssignStmt:
 			for i, l := range x.Lhs {
+				// a ParseError handed on from a helper's result (`perr := perr` after expansion)
+				if len(x.Lhs) == len(x.Rhs) {
+					if id, isID := ast.Unparen(x.Rhs[i]).(*ast.Ident); isID && typeQName(info.TypeOf(id)) == "internal/parser.ParseError" {
+						if _, lhsSel := ast.Unparen(l).(*ast.SelectorExpr); !lhsSel {
+							out = append(out, errorExit{x.Pos(), lexicalGuards(pm, x, fi.Decl.Body), enclosingInits(pm, x, fi.Decl.Body), ownGuards(pm, x, fi.Decl.Body)})
+						}
+					}
+				}
 				if sel, ok := ast.Unparen(l).(*ast.SelectorExpr); ok && sel.Sel.Name == "Error" && i < len(x.Rhs) {
 					if isErrLit(x.Rhs[i]) || typeQName(info.TypeOf(x.Rhs[i])) == "internal/parser.ParseError" {
-						out = append(out, errorExit{x.Pos(), lexicalGuards(pm, x, fi.Decl.Body), enclosingInits(pm, x, fi.Decl.Body)})
+						out = append(out, errorExit{x.Pos(), lexicalGuards(pm, x, fi.Decl.Body), enclosingInits(pm, x, fi.Decl.Body), ownGuards(pm, x, fi.Decl.Body)})
 					}
 				}
 			}
@@ -258,7 +302,10 @@ func guardText(e errorExit) string {
 	if canonInfo != nil {
 		str = func(n ast.Node) string { return canonStr(canonInfo, n) }
 	}
-	for _, a := range e.guards {
+	for i, a := range e.guards {
+		if i == e.own && e.own > 0 {
+			parts = append(parts, "«outer»")
+		}
 		t := str(a.E)
 		if a.Tag != nil {
 			t = str(a.Tag) + " == " + t
@@ -426,7 +473,13 @@ func runC01(c *Ctx) {
 	reasons := []reason{
 		{"top level is not a mapping", pg, has("!(isTag(", "mapTag)"), "cannot unmarshal into rulefmt.RuleGroups"},
 		{"duplicated top level key", pg, func(g string) bool {
-			return g == "flag" || g == "!(flag) && init:set[entry.key.Value]" || g == "flag && init:set[entry.key.Value]"
+			// `if hasGroups {error}` (a flag set once the key was seen) or a set keyed by the key text;
+			// outer guards (else branches of earlier rejections) may follow
+			own := strings.TrimSuffix(strings.Split(g, "«outer»")[0], " && ")
+			if i := strings.Index(own, " && init:"); i >= 0 {
+				own = own[:i]
+			}
+			return (own == "flag" && !strings.Contains(g, ".Name]")) || strings.Contains(g, "init:set[entry.key.Value]")
 		}, "yaml: mapping key already defined"},
 		{"groups is not a list", pg, has("!(isTag(", "seqTag)"), "cannot unmarshal into []RuleGroup"},
 		{"repeated group name", pg, func(g string) bool { return strings.Contains(g, "init:set[") && strings.Contains(g, ".Name]") }, "groupname is repeated in the same file"},
@@ -702,12 +755,21 @@ func c01Routing(c *Ctx) {
 		for _, cl := range compositeLits(pinfo, pre.Decl.Body, "internal/checks.Problem") {
 			sev := litField(cl, "Severity")
 			k := constObj(pinfo, sev)
-			cc, _ := enclosingCaseTagless(pm, cl)
+			// which error kind leads here: the positive errors.As(err, &x) among the guards, by the type of x
 			label := "default"
-			if cc != nil && len(cc.List) == 1 {
-				label = exprStr(cc.List[0])
+			for _, g := range lexicalGuards(pm, cl, pre.Decl.Body) {
+				call, ok := ast.Unparen(g.E).(*ast.CallExpr)
+				if !ok || !g.Truth || g.Tag != nil || len(call.Args) != 2 {
+					continue
+				}
+				if fn := Callee(pinfo, call); fn == nil || fn.Pkg() == nil || fn.Pkg().Path() != "errors" || fn.Name() != "As" {
+					continue
+				}
+				if u, ok := ast.Unparen(call.Args[1]).(*ast.UnaryExpr); ok && u.Op == token.AND {
+					label = typeQName(pinfo.TypeOf(u.X))
+				}
 			}
-			if strings.Contains(label, "parseErr") || label == "default" {
+			if label == "internal/parser.ParseError" || label == "default" {
 				nFatal++
 				c.Check(k != nil && k.Name() == "Fatal", "C01-R3", "parseRuleError:"+label+" is Fatal", cl.Pos(), "Fatal", "a YAML/rule parse error is reported below Fatal: with the default --fail-on a file Prometheus cannot load passes")
 			}
@@ -790,8 +852,15 @@ func c01Checks(c *Ctx) {
 		canonInfo = finfo
 		defer func() { canonInfo = saved }()
 		for _, cl := range compositeLits(finfo, fi.Decl.Body, "internal/checks.Problem") {
-			g := guardText(errorExit{guards: lexicalGuards(fpm, cl, fi.Decl.Body)})
-			if !strings.Contains(g, guardSub) {
+			// the literal stands under the positive fact guardSub (a negated mention, as in the
+			// later arms of a switch, does not count)
+			under := false
+			for _, a := range lexicalGuards(fpm, cl, fi.Decl.Body) {
+				if a.Truth && a.Tag == nil && strings.Contains(canonStr(finfo, a.E), guardSub) {
+					under = true
+				}
+			}
+			if !under {
 				continue
 			}
 			k := constObj(finfo, litField(cl, "Severity"))
